@@ -1,0 +1,13 @@
+//go:build verif
+
+package minibus
+
+// VerifHook, when set by a verification harness before any bus is used, is called at the points named by verifAt.
+// It may block the calling goroutine (scheduling) or record it.
+var VerifHook func(point string, obj any, args ...any)
+
+func verifAt(point string, obj any, args ...any) {
+	if h := VerifHook; h != nil {
+		h(point, obj, args...)
+	}
+}
